@@ -86,6 +86,23 @@ class C05Proj(ControlProjector):
         return None
 
 
+class C06Proj(ControlProjector):
+    """after a command that fails (per the model), everything observable must be as before it"""
+    def __init__(self):
+        super().__init__()
+        self.nonempty = False
+
+    def step(self, kind, op, a, b):
+        self.track(kind, op, a, b)
+        if kind in COMMANDS:
+            return res_okerr(a), res_okerr(b), self.last_cmd_failed and self.nonempty
+        if kind == 'list' and len(b.split(' ')) > 1 and b.split(' ')[1]:
+            self.nonempty = True
+        if self.last_cmd_failed and kind in ('list', 'snapshot', 'probing', 'route', 'req', 'cert'):
+            return a, b, False
+        return None
+
+
 def control(projector, n_quick=160, n_thorough=6000):
     return dict(engine='control', n_quick=n_quick, n_thorough=n_thorough, projector=projector)
 
@@ -95,6 +112,13 @@ RULE_CONTROL = ("cases are command histories (6-20 commands of deploy/redeploy/r
                 "snapshot, probing and 2-5 route/request/certificate queries; one PRNG seeded by VERIF_SEED; a case counts as non-trivial ")
 
 PROPS = {
+    'C06': dict(
+        engines=[control(C06Proj)],
+        rule=RULE_CONTROL + "for C06 when a command fails (any error class) while at least one service is deployed; after each failing "
+             "command list, state file, probed targets and routing/request answers are compared with the unchanged model state",
+        assumptions=["'still being probed' is read from the health-check contexts of every Target the process created (white box); the "
+                     "probe counts on the virtual clock are compared by the C17 check"],
+    ),
     'C04': dict(
         engines=[control(C04Proj)],
         rule=RULE_CONTROL + "for C04 when at least one route query resolves to a service (not 404); distinct = sha1 of the case's op lines",
